@@ -2,7 +2,9 @@ import Chewing.Model.TrieCodec
 import Chewing.Proofs.TrieEntriesTree
 /-!
 The reader's `entries()` on a laid-out index refines the DFS on the tree (`tLoop`), hence yields
-every (key, leaf) exactly once.
+every (key, leaf) exactly once.  The `unwrap` of `make_dict_entry` (`Syllable::try_from` on every syllable of the
+stack; since the repair of C13's F47 it fails on every value that is not a `Syllable`, not only on 0) cannot fire:
+the invariant is `∀ s ∈ syls, validCode s = true` — the stack holds syllables of forest nodes (`Item.WF.syl_valid`).
 -/
 namespace Chewing.TrieCodec
 open Chewing Chewing.Der
@@ -46,20 +48,23 @@ theorem kidrep_leaf {recs : List Rec} {data : Bytes} {w : Rec} {ps : List Phrase
     · simp only [dataSlice, hsl]
       exact decPhrases_sortLeaf h3.2 hln
 
-theorem any_zero_false {syls : List Nat} (h : ∀ s ∈ syls, s ≠ 0) : syls.any (· == 0) = false := by
+/-- `Syllable::try_from(syl_u16).unwrap()` of `make_dict_entry` does not panic: the syllable stack holds the
+    syllable fields of node records standing for forest nodes, all valid codes -/
+theorem any_invalid_false {syls : List Nat} (h : ∀ s ∈ syls, validCode s = true) :
+    syls.any (fun s => !validCode s) = false := by
   rw [List.any_eq_false]
   intro s hs
-  simpa using h s hs
+  simp [h s hs]
 
 /-- the reader's descent follows the tree's -/
 theorem descend_rep {recs : List Rec} {data : Bytes} (f : Nat) :
     ∀ (v : Rec) (node : Item) (vstack : List (List Rec)) (istack : List (List Item)) (syls : List Nat)
       (tres : List Group),
-      Rep recs data v node → StackRep recs data vstack istack → (∀ s ∈ syls, s ≠ 0) →
+      Rep recs data v node → StackRep recs data vstack istack → (∀ s ∈ syls, validCode s = true) →
       ∀ istack' syls' tres', tDescend f node istack syls tres = some (istack', syls', tres') →
         ∃ vstack', descend (recs.flatMap recBytes) data f v vstack syls (tres.map sortG) =
             .ok (some (vstack', syls', tres'.map sortG)) ∧
-          StackRep recs data vstack' istack' ∧ (∀ s ∈ syls', s ≠ 0) := by
+          StackRep recs data vstack' istack' ∧ (∀ s ∈ syls', validCode s = true) := by
   induction f with
   | zero => intro v node vstack istack syls tres _ _ _ istack' syls' tres' h; simp [tDescend] at h
   | succ f ih =>
@@ -101,7 +106,7 @@ theorem descend_rep {recs : List Rec} {data : Bytes} (f : Nat) :
                   have := toItems_syl_pos hsub _ (mem_sortBy.mp hm)
                   omega
               have hbeq : (w1.2.2 == 0) = true := by simp [hz]
-              simp only [hbeq, if_true, hoobd, Bool.false_eq_true, if_false, any_zero_false hsy, hdec]
+              simp only [hbeq, if_true, hoobd, Bool.false_eq_true, if_false, any_invalid_false hsy, hdec]
               have hres : (syls.reverse, sortLeaf ps) :: tres.map sortG = ((syls.reverse, ps) :: tres).map sortG := rfl
               rw [hres]
               cases ks with
@@ -123,7 +128,7 @@ theorem descend_rep {recs : List Rec} {data : Bytes} (f : Nat) :
                   intro t ht
                   simp only [List.mem_cons] at ht
                   rcases ht with rfl | ht
-                  · exact hk2
+                  · exact hw2.choose_spec.2.2.1.syl_valid hk2
                   · exact hsy t ht
             | node s1 l1 sub1 =>
               have hw1s : w1.2.2 = s1 := hw1.choose_spec.2.2.2
@@ -152,17 +157,17 @@ theorem descend_rep {recs : List Rec} {data : Bytes} (f : Nat) :
               intro t ht
               simp only [List.mem_cons] at ht
               rcases ht with rfl | ht
-              · exact hs1
+              · exact hw1.choose_spec.2.2.1.2.2.1
               · exact hsy t ht
 
 theorem ascend_rep {recs : List Rec} {data : Bytes} :
     ∀ (vstack : List (List Rec)) (istack : List (List Item)) (syls : List Nat),
-      StackRep recs data vstack istack → (∀ s ∈ syls, s ≠ 0) →
+      StackRep recs data vstack istack → (∀ s ∈ syls, validCode s = true) →
       match tAscend istack syls with
       | none => ascend vstack syls = none
       | some (n, istack', syls') =>
         ∃ v vstack', ascend vstack syls = some (v, vstack', syls') ∧ Rep recs data v n ∧
-          StackRep recs data vstack' istack' ∧ (∀ s ∈ syls', s ≠ 0) := by
+          StackRep recs data vstack' istack' ∧ (∀ s ∈ syls', validCode s = true) := by
   intro vstack istack syls h
   induction h generalizing syls with
   | nil => intro _; rfl
@@ -179,12 +184,12 @@ theorem ascend_rep {recs : List Rec} {data : Bytes} :
       · intro s hs
         simp only [List.mem_cons] at hs
         rcases hs with rfl | hs
-        · exact hwk.2.2.1
+        · exact hwk.2.1.syl_valid hwk.2.2.1
         · exact hsy s (List.mem_of_mem_tail hs)
 
 theorem entriesLoop_rep {recs : List Rec} {data : Bytes} (f : Nat) :
     ∀ (v : Rec) (node : Item) (vstack : List (List Rec)) (istack : List (List Item)) (syls : List Nat),
-      Rep recs data v node → StackRep recs data vstack istack → (∀ s ∈ syls, s ≠ 0) →
+      Rep recs data v node → StackRep recs data vstack istack → (∀ s ∈ syls, validCode s = true) →
       ∀ out, tLoop ((recs.flatMap recBytes).length + 1) f node istack syls = some out →
         entriesLoop (recs.flatMap recBytes) data f v vstack syls = .ok (out.map sortG) := by
   induction f with
